@@ -359,6 +359,25 @@ theorem sentinel_sort_restores_order {κ ρ : Type} [BEq κ] [LawfulBEq κ] (key
   have hr' : r ∈ returned := hperm.symm.subset hr
   rw [lookup_pairs key returned hn' r hr']
 
+/-- **dup_sentinel_raises**: if two parameter sets of a batch carry the same sentinel value
+    then — whatever order the (honest) backend returns the rows in — the match refuses
+    with the row-count error instead of pairing rows arbitrarily. -/
+theorem dup_sentinel_raises {κ ρ : Type} [BEq κ] [LawfulBEq κ] (key : ρ → κ)
+    (sentinels : List κ) (inserted returned : List ρ)
+    (hperm : returned.Perm inserted)
+    (hkeys : inserted.map key = sentinels)
+    (hdup : ¬ sentinels.Nodup) :
+    sortExplicit key sentinels.length sentinels returned = .error .rowcount := by
+  unfold sortExplicit
+  have hlen : returned.length = sentinels.length := by
+    rw [hperm.length_eq, ← hkeys, List.length_map]
+  have hne : (dictOf key returned).length ≠ sentinels.length := by
+    intro heq
+    have hn := dictOf_length_eq_imp_nodup key returned (by rw [heq, hlen])
+    have : (returned.map key).Perm (inserted.map key) := hperm.map key
+    exact hdup (hkeys ▸ (this.nodup_iff.1 hn))
+  simp [hne]
+
 /-! ## the whole pipeline -/
 
 theorem runBatches_ok {α κ ρ : Type} [BEq κ] (style : Style) (ikey : ρ → Int) (ekey : ρ → κ)
